@@ -76,6 +76,10 @@ int main(int argc, char** argv) {
         if (o.kind == 1) st->unregister_gradient(o.idx); else st->unregister_gradients(o.idx, o.n);
       }
       std::cout << st->alloc_line(0, false) << "\n";
+    } else if ((w[0] == "pause" || w[0] == "cont") && w.size() == 1) {
+      // registration must not depend on whether recording is paused (pausable builds; no-ops otherwise)
+      if (w[0] == "pause") st->pause_recording(); else st->continue_recording();
+      std::cout << st->alloc_line(0, false) << "\n";
     } else if (w[0] == "nr" && w.size() == 1) {
       st->new_recording();
       std::cout << st->alloc_line(0, false) << "\n";
